@@ -69,7 +69,11 @@ def check(ctx: Ctx, col: Collector, tier: str) -> None:
     outs = run_type_string(ctx, "NamedType")
     others = [o for o in outs if o.kind == "return" and not (isinstance(o.value, Const) and o.value.v in leaf.values())]
     key = f"{gkey}::leaf::other"
-    okv = bool(others) and all(o.value == Sym("type_data['name']") for o in others)
+    def _own_name(v):  # the class's own name, possibly through the keyword escaper / name conversion
+        while isinstance(v, App) and v.func in ("_replace_if_safeds_keyword", "_convert_name_to_convention") and v.args:
+            v = v.args[0]
+        return v == Sym("type_data['name']")
+    okv = bool(others) and all(_own_name(o.value) for o in others)
     if okv:
         col.ok("C05.LEAF-TABLE", key, repo.loc(GEN, others[0].node), "any other name -> type_data['name'] (the class's own name)")
     else:
